@@ -26,6 +26,13 @@ def _load_corpus():
     return corpus.MUTANTS, corpus.TWINS
 
 
+def _load_refmuts():
+    sys.path.insert(0, os.path.join(VERIF, "selftest"))
+    import corpus  # type: ignore
+
+    return getattr(corpus, "REFACTORED_MUTANTS", [])
+
+
 def _scratch():
     tmp = tempfile.mkdtemp(prefix="vselftest.")
     os.makedirs(os.path.join(tmp, "src"))
@@ -104,6 +111,16 @@ def run(chk, pid: str):
     # every property's check must stay silent on each of them
     for d in sorted(glob.glob(os.path.join(VERIF, "selftest", "refactors", "*.diff"))):
         jobs.append(("twin", "refactor:" + os.path.basename(d)[:-5], (lambda d=d: (lambda tmp: _apply_diff(tmp, d)))()))
+    # a defect planted in the REFACTORED spelling: the refactoring twin is applied first, then the mutation - the generalised rule that accepts the new
+    # spelling must still reject the defect in it
+    for ident, props, twin, rel, pat, rep in _load_refmuts():
+        if pid in props:
+            d = os.path.join(VERIF, "selftest", "refactors", twin + ".diff")
+
+            def how(tmp, d=d, rel=rel, pat=pat, rep=rep):
+                st = _apply_diff(tmp, d)
+                return st if st != "ok" else _apply_regex(tmp, rel, pat, rep, 1)
+            jobs.append(("mutant", "refactored:" + ident, how))
     seen = set()
     uniq = []
     for j in jobs:
